@@ -85,10 +85,10 @@ PropVerdict ==
     CASE Prop = "C09" -> IF LStatus \notin {"done", "EvalError"} THEN "outside"
                          ELSE IF C09_Holds(LTree, LStatus, LIds) THEN "holds" ELSE "violated"
       [] Prop = "C10" -> IF LStatus \notin {"done", "EvalError", "UnsafeError"} THEN "outside"
-                         ELSE IF /\ C10_AtMostOnce(LCalls) /\ C10_OnlyExisting(LTree, LCalls)
-                                 /\ C10_ExactlyOnce(LTree, LStatus, LCalls)
-                                 /\ C10_OrderFree(LTree, LStatus, LData)
-                                 /\ C10_SameObject(LTree, LStatus, LIds) THEN "holds" ELSE "violated"
+                         ELSE IF /\ C10_AtMostOnce(LCalls) /\ C10_OnlyExisting(ExpandRec(LTree), LCalls)
+                                 /\ C10_ExactlyOnce(ExpandRec(LTree), LStatus, LCalls)
+                                 /\ C10_OrderFree(ExpandRec(LTree), LStatus, LData)
+                                 /\ C10_SameObject(ExpandRec(LTree), LStatus, LIds) THEN "holds" ELSE "violated"
       [] Prop = "C11" -> IF LStatus # "done" THEN "outside"
                          ELSE IF C11_Mirror(LTree, LStatus, LData) /\ T.lifecycle = "ok" THEN "holds" ELSE "violated"
       [] Prop = "C07" -> IF ~C07_InDomain(LDocs, LSafes) THEN "outside"
@@ -99,8 +99,8 @@ PropVerdict ==
 
 ModelVerdict ==
     CASE Prop = "C09" -> IF C09_Holds(work, status, MIds) THEN "holds" ELSE "violated"
-      [] Prop = "C10" -> IF /\ C10_AtMostOnce(calls) /\ C10_OnlyExisting(work, calls) /\ C10_ExactlyOnce(work, status, calls)
-                            /\ C10_OrderFree(work, status, MData) /\ C10_SameObject(work, status, MIds) THEN "holds" ELSE "violated"
+      [] Prop = "C10" -> IF /\ C10_AtMostOnce(calls) /\ C10_OnlyExisting(ExpandRec(work), calls) /\ C10_ExactlyOnce(ExpandRec(work), status, calls)
+                            /\ C10_OrderFree(ExpandRec(work), status, MData) /\ C10_SameObject(ExpandRec(work), status, MIds) THEN "holds" ELSE "violated"
       [] Prop = "C11" -> IF C11_Mirror(work, status, MData) THEN "holds" ELSE "violated"
       [] Prop = "C07" -> IF (C07_InDomain(LDocs, LSafes) => C07_TaintSound(work, LDocs, LSafes))
                             /\ C07_EvalHolds(work, status, MCallsData, MData, LDocs, LSafes) THEN "holds" ELSE "violated"
